@@ -172,6 +172,11 @@ def step (s : St) (op : String) : St × Option String :=
     let val := parseVal v
     if isLabelKey key then ({ s with vmd := put s.vmd key val }, none)
     else ({ s with md := put s.md key val }, none)
+  | "renamef" :: rest =>
+    -- judge: `RenameRepo` with one transiently failing store call reported an error, or left exactly
+    -- the state of the fault-free rename
+    let got := (kvGet (kvs rest) "got").getD ""
+    (s, some (if got == "same" || got == "err" then "sound" else "UNSOUND"))
   | "deletecr" :: rest =>
     -- judge: `DeleteRepo` killed at its k-th store write and then run again left nothing of the
     -- repository (it held committed bundles only) and changed no key of any other repository
